@@ -6,10 +6,12 @@
 //!   record   solver-found cycles and near misses in larger graphs as events (direction B)
 //!   ser      Proof packing / padding / difficulty cases
 //!   select   which graph definition global::create_pow_context picks per chain type / height / edge bits
+//!   size     pow::verify_size(&BlockHeader) on TLC's plans: nonce count and shape chosen by the sender (vsize.rs)
 mod graph;
 mod run;
 mod sip;
 mod vectors;
+mod vsize;
 
 use graph::{Edge, Index};
 use grin_core::global::{self, ChainTypes};
@@ -37,8 +39,9 @@ fn main() {
 		Some("record") => record(&args),
 		Some("ser") => ser::ser(&args),
 		Some("select") => select(&args),
+		Some("size") => vsize::size(&args),
 		_ => {
-			eprintln!("cuckoo pin|scan|exhaust|cases|record|ser");
+			eprintln!("cuckoo pin|scan|exhaust|cases|record|ser|select|size");
 			2
 		}
 	};
